@@ -341,6 +341,52 @@ class History:
                 st = 'refused'
             self.record('del.%d' % self.tid(victim.txid), st, 'transaction_delete(%s..) - one of the two' % victim.txid[:8])
 
+    def op_parent_child(self):
+        # a transaction is sent, its change is spent by a second one, the first is deleted from the wallet and then sent again from the
+        # object the caller still holds: its change output is consumed by the stored second transaction and must not come back as unspent
+        from bitcoinlib.wallets import WalletError
+        rng = self.rng
+        avail = sum(u['value'] for u in self.w.utxos())
+        try:
+            t1 = self.w.send_to(EXT[self.wt], max(600, avail // 5), fee=1000, broadcast=True, min_confirms=0)
+        except WalletError:
+            t1 = None
+        PUSH['accepted'] = []
+        self.finish_send(t1, 'send_to (parent)')
+        if t1 is None or not t1.pushed:
+            return
+        a2k = self.addr_keyid()
+        ch = [o for o in t1.outputs if o.address in a2k and o.value > 3000]
+        if not ch:
+            self.ctx.count('parent-child:no-change')
+            return
+        try:
+            t2 = self.w.send_to(EXT[self.wt], ch[0].value // 2, fee=500, broadcast=True, min_confirms=0, input_key_id=a2k[ch[0].address])
+        except WalletError:
+            t2 = None
+        PUSH['accepted'] = []
+        self.finish_send(t2, 'send_to (child: spends the change of the parent)')
+        if t2 is None or not t2.pushed or not any(i.prev_txid.hex() == t1.txid for i in t2.inputs):
+            self.ctx.count('parent-child:child-not-built')
+            return
+        self.sent = [x for x in self.sent if x[0] != t1.txid]
+        try:
+            self.w.transaction_delete(t1.txid)
+            st = 'ok'
+        except WalletError:
+            st = 'refused'
+        self.record('del.%d' % self.tid(t1.txid), st, 'transaction_delete(%s..) - the parent' % t1.txid[:8])
+        try:
+            t1.send()
+        except Exception as e:
+            self.ctx.count('resend-refused:' + type(e).__name__)
+        PUSH['accepted'] = []
+        self.ctx.count('parent-child:parent-sent-again')
+        self.sync_keys()
+        ins, outs = self.body_of(t1)
+        self.sent.append((t1.txid, t1.raw_hex(), ins, outs))
+        self.record('send.%d.%s.%s' % (self.tid(t1.txid), ins, outs), 'ok', 'send() again on the object of the deleted parent %s..' % t1.txid[:8])
+
     def op_sweep(self):
         from bitcoinlib.wallets import WalletError
         rng = self.rng
@@ -403,17 +449,27 @@ class History:
     def op_resend(self):
         # the caller still holds the object of a transaction that was sent earlier and sends it again (the network knows it already):
         # nothing changes - in particular nothing that was spent since comes back
-        objs = [o for o in getattr(self, 'sent_objs', []) if any(o.txid == x[0] for x in self.sent)]
+        objs = [o for o in getattr(self, 'sent_objs', []) if o.hdwallet is self.w or any(o.txid == x[0] for x in self.sent)]
         if not objs:
             return self.op_balance()
         t = self.rng.choice(objs)
+        stored = any(t.txid == x[0] for x in self.sent)
         try:
             t.send()
         except Exception as e:
             self.ctx.count('resend-refused:' + type(e).__name__)
         PUSH['accepted'] = []
-        self.ctx.count('resend')
-        self.record('reopen', 'ok', 'send() again on the object of %s..' % t.txid[:8])
+        if stored:
+            self.ctx.count('resend')
+            self.record('reopen', 'ok', 'send() again on the object of %s..' % t.txid[:8])
+        else:
+            # the transaction had been deleted from the wallet in the meantime: it is stored again - and an output of it that a later
+            # transaction consumes is spent from the start
+            self.ctx.count('resend-after-delete')
+            self.sync_keys()
+            ins, outs = self.body_of(t)
+            self.sent.append((t.txid, t.raw_hex(), ins, outs))
+            self.record('send.%d.%s.%s' % (self.tid(t.txid), ins, outs), 'ok', 'send() again on the object of %s.., which was deleted' % t.txid[:8])
 
     def op_balance(self):
         self.w.balance()
@@ -454,6 +510,8 @@ class History:
         for step_ in range(self.nops):
             if step_ == self.nops // 2 and self.hseed % 2 == 0:
                 self.op_replacement()          # (in every second history, once)
+            if step_ == self.nops // 3 and self.hseed % 2 == 1:
+                self.op_parent_child()         # (in the other histories, once)
             rng.choice(pool)()
         # a final drain: sweep, then look again
         self.final = True
